@@ -2,7 +2,12 @@
 // None of them calls the code under verification.
 package ref
 
-import "strings"
+import (
+	"regexp"
+	"strings"
+)
+
+var reBlankLines = regexp.MustCompile(`\n[ \t\r\n]*\n`)
 
 var blockTags = map[string]bool{
 	"p": true, "hr": true, "h1": true, "h2": true, "h3": true, "h4": true, "h5": true, "h6": true,
@@ -96,7 +101,12 @@ func Norm(s string) string {
 		}
 		txt := t.text
 		if inPre == 0 {
-			if i == 0 || (toks[i-1].tag && toks[i-1].block) {
+			// Blank lines only occur between blocks (a blank line ends every
+			// inline context), so runs of line endings collapse to one.
+			txt = reBlankLines.ReplaceAllString(txt, "\n")
+			if i == 0 || (toks[i-1].tag && (toks[i-1].block || toks[i-1].name == "br")) {
+				// after a block-level tag, and after a line break element
+				// (white space following <br> does not render)
 				txt = strings.TrimLeft(txt, wsSet)
 			}
 			if i == len(toks)-1 || (toks[i+1].tag && toks[i+1].block) {
